@@ -7,6 +7,7 @@ import (
 	"golang.org/x/tools/go/ssa"
 
 	"bdcheck/internal/ir"
+	"bdcheck/internal/load"
 )
 
 const feDagRel = "internal/frontend/dag"
@@ -19,6 +20,7 @@ func init() {
 			"start is issued only under latest-status != running, stop only under == running, a status edit only under latest-status != running with non-empty request id and step; the status tested is the DAG's latest status obtained by GetStatus(DagID) (C20.guards)",
 			"no mutating client call precedes a refusal that is not caused by that call's own error (C20.refusal-is-pure)",
 			"the status edit stores only Status and StatusText of Nodes[i] of the run read by request id, i being set only under Nodes[i].Step.Name == body.Step, the value being the action's constant; that same object is what UpdateStatus receives (C20.edit-footprint)",
+			"the run edited in place is private to the request: the client hands out the Status of the store's FindByRequestID record, and every store implementation fills that record from a parse made for the call, not from the shared status cache (C20.edit-on-private-copy)",
 			"an unknown action performs no client call other than the status read (C20.unknown-action); start parameters pass through unchanged (C11.param-flow shared)",
 		},
 		NotDec: []string{"sequences of actions over recorded runs", "escaping of \\n / \\r in parameters on the way to the child process", "client.UpdateStatus's own live-run check (request-id equality)"},
@@ -306,6 +308,7 @@ func runC20(e *Env) {
 		r.Check(ir.Resolve(ci.Common().Args[1]) == edited, "status edit: UpdateStatus receives the edited run", e.InstrPos(ci), "the object handed to UpdateStatus is not the run that was read and edited")
 	}
 
+	c20PrivateCopy(e)
 	r.Rule("C20.unknown-action", "DCS", "unknown action: no client call besides the status read", 1)
 	// the default branch: answers "invalid action"
 	n := 0
@@ -441,4 +444,116 @@ func c20IndexUnderNameMatch(e *Env, idx ssa.Value) bool {
 		walk(v, nil, 0)
 	}
 	return ok && found && len(start) > 0
+}
+
+// c20PrivateCopy: the handler edits the run it read in place, before the store has
+// accepted the edit. That is only harmless if the object is private to the request:
+// the client hands out the store's record unchanged, and the store's lookup by
+// request id parses the file for this call instead of answering from the status
+// cache shared by all readers (an edit that is then refused would stay in the cache,
+// be shown by every view and be written out with the next accepted edit).
+func c20PrivateCopy(e *Env) {
+	r := e.R
+	r.Rule("C20.edit-on-private-copy", "VF", "the run edited in place comes from a parse made for this request, not from the shared cache", 2)
+	parse := e.FnQuiet(jsondbRel, "ParseFile")
+	nonNilRets := func(f *ssa.Function) []*ssa.Return {
+		var out []*ssa.Return
+		for _, b := range f.Blocks {
+			if rt, ok := b.Instrs[len(b.Instrs)-1].(*ssa.Return); ok && len(rt.Results) > 0 && !ir.IsNilConst(ir.Resolve(rt.Results[0])) && e.Facts(f).Reachable(b) {
+				out = append(out, rt)
+			}
+		}
+		return out
+	}
+	nClient, nStore := 0, 0
+	for _, f := range e.RepoFuncsSorted() {
+		if f.Signature.Recv() == nil || f.Parent() != nil || f.Synthetic != "" {
+			continue
+		}
+		switch f.Name() {
+		case "GetStatusByRequestID":
+			if !strings.HasSuffix(load.FuncPkgPath(f), "internal/client") {
+				continue
+			}
+			nClient++
+			for _, rt := range nonNilRets(f) {
+				ps, ok := e.DeepPaths(rt.Results[0])
+				good := ok && len(ps) > 0
+				for _, p := range ps {
+					if !(invokeResult(p.Root, "FindByRequestID", 0) && p.Dotted() == "Status") {
+						good = false
+					}
+				}
+				r.Check(good, ShortFn(f)+": hands out the Status of the store's FindByRequestID record", e.InstrPos(rt),
+					"the run handed to the status edit is not the record the history store returned for the request id")
+			}
+		case "FindByRequestID":
+			if !strings.Contains(load.FuncPkgPath(f), "internal/persistence") {
+				continue
+			}
+			nStore++
+			for _, rt := range nonNilRets(f) {
+				var vals []ssa.Value
+				if al, ok := ir.Resolve(rt.Results[0]).(*ssa.Alloc); ok {
+					for _, ref := range *al.Referrers() {
+						if fa, ok := ref.(*ssa.FieldAddr); ok && ir.FieldNameOf(fa.X.Type(), fa.Field) == "Status" {
+							for _, r2 := range *fa.Referrers() {
+								if st, ok := r2.(*ssa.Store); ok {
+									vals = append(vals, st.Val)
+								}
+							}
+						}
+					}
+				}
+				good := len(vals) > 0
+				var facts []string
+				// every origin of the value is result #0 of the parse function, directly or
+				// handed back by helpers
+				var fromParse func(v ssa.Value, d int) bool
+				fromParse = func(v ssa.Value, d int) bool {
+					if d > 5 {
+						return false
+					}
+					for _, leaf := range phiLeaves(v) {
+						leaf = ir.Deep(leaf)
+						idx := 0
+						if ex, ok := leaf.(*ssa.Extract); ok {
+							leaf, idx = ex.Tuple, ex.Index
+						}
+						c, ok := leaf.(*ssa.Call)
+						if !ok {
+							facts = append(facts, "comes from "+e.C.Render(leaf))
+							return false
+						}
+						g := c.Call.StaticCallee()
+						if g == parse && idx == 0 {
+							continue
+						}
+						if g == nil || !e.P.Funcs[g] || g.Blocks == nil {
+							facts = append(facts, "comes from "+e.C.Render(leaf)+" at "+e.InstrPos(c))
+							return false
+						}
+						for _, b := range g.Blocks {
+							if rt2, ok := b.Instrs[len(b.Instrs)-1].(*ssa.Return); ok && idx < len(rt2.Results) && !ir.IsNilConst(ir.Resolve(rt2.Results[idx])) {
+								if !fromParse(rt2.Results[idx], d+1) {
+									return false
+								}
+							}
+						}
+					}
+					return true
+				}
+				for _, v := range vals {
+					if !fromParse(v, 0) {
+						good = false
+					}
+				}
+				r.Check(good, ShortFn(f)+": the returned status is parsed from the file for this call", e.InstrPos(rt),
+					"the lookup by request id answers with an object that is shared with other readers (status cache): the API's in-place status edit then changes what every view shows even when the edit is refused, and a later accepted edit writes the refused one out as well", facts...)
+			}
+		}
+	}
+	if nClient == 0 || nStore == 0 || parse == nil {
+		r.Unknown("status edit: the chain handler → client.GetStatusByRequestID → store.FindByRequestID → parse", "-", sprintf("client implementations=%d store implementations=%d parse function found=%v", nClient, nStore, parse != nil))
+	}
 }
